@@ -80,13 +80,13 @@ def FS.bumpDir (fs : FS) (p : Path) : FS :=
 /-! ## path strings -/
 
 /-- split at every `/`: `"a//b/"` ↦ `["a", "", "b", ""]`; never empty -/
+def consHead (c : UInt8) : List Str → List Str
+  | [] => [[c]]
+  | h :: t => (c :: h) :: t
+
 def splitSlash : Str → List Str
   | [] => [[]]
-  | c :: cs =>
-    if c = cSlash then [] :: splitSlash cs
-    else match splitSlash cs with
-      | [] => [[c]]
-      | h :: t => (c :: h) :: t
+  | c :: cs => if c = cSlash then [] :: splitSlash cs else consHead c (splitSlash cs)
 
 /-- the components the kernel walks: empty ones (`//`, leading and trailing `/`) are skipped -/
 def comps (s : Str) : List Str := (splitSlash s).filter (· ≠ [])
